@@ -5,7 +5,8 @@
    from triple insertion order, blank-node labels, prefix bindings and the hash seed in the real
    code is decided by the multi-process differential (DESIGN.md). *)
 From Coq Require Import List NArith Bool Permutation.
-From Verif Require Import Base.SetList Base.Terms Paths.Path Shapes.AST Shapes.Leaf Shapes.Eval Shapes.OrderProofs.
+From Verif Require Import Base.SetList Base.Terms Paths.Path Shapes.AST Shapes.Leaf Shapes.Eval Shapes.OrderProofs
+  Closure.Worklist Closure.WorklistProofs Gen.T4.
 Import ListNotations.
 
 Theorem C09_shape_order : forall trig W o sg g E explicit shapes shapes' c rs, abort o = false ->
@@ -24,3 +25,28 @@ Theorem C09_pick_from_singleton : forall (A:Type) (pick pick':list A -> option A
   (forall y, In y l -> y = x) -> forall a b, pick l = Some a -> pick' l = Some b -> a = b.
 Proof. intros A. exact (@pick_singleton A). Qed.
 Print Assumptions C09_pick_from_singleton.
+
+(* Tie A, insertion order: the subclass / superclass closures of the real code (the work-list programs generated from
+   pyshacl/rdfutil/closure.py) return the same set of nodes for any two listings of the same triples - whatever order
+   the store enumerates the neighbours of a node in, with duplicates or without. *)
+Theorem C09_closure_insertion_order_subjects : forall g g' pred start r r',
+  (forall t, In t g <-> In t g') ->
+  run_on transitive_subjects_prog g pred start = Some r -> run_on transitive_subjects_prog g' pred start = Some r' ->
+  forall y, In y r <-> In y r'.
+Proof. exact (closure_order_free true). Qed.
+Print Assumptions C09_closure_insertion_order_subjects.
+
+Theorem C09_closure_insertion_order_objects : forall g g' pred start r r',
+  (forall t, In t g <-> In t g') ->
+  run_on transitive_objects_prog g pred start = Some r -> run_on transitive_objects_prog g' pred start = Some r' ->
+  forall y, In y r <-> In y r'.
+Proof. exact (closure_order_free false). Qed.
+Print Assumptions C09_closure_insertion_order_objects.
+
+(* the hypotheses are met by a diamond listed in two orders: the lists differ, the sets do not *)
+Example C09_closure_nonvacuous :
+  run_on transitive_subjects_prog [(IRI 2, IRI 9, IRI 1); (IRI 4, IRI 9, IRI 1); (IRI 2, IRI 9, IRI 4); (IRI 5, IRI 9, IRI 4)] (IRI 9) (IRI 1)
+    = Some [IRI 1; IRI 2; IRI 4; IRI 5]
+  /\ run_on transitive_subjects_prog [(IRI 5, IRI 9, IRI 4); (IRI 4, IRI 9, IRI 1); (IRI 2, IRI 9, IRI 4); (IRI 2, IRI 9, IRI 1)] (IRI 9) (IRI 1)
+    = Some [IRI 1; IRI 4; IRI 2; IRI 5].
+Proof. split; vm_compute; reflexivity. Qed.
